@@ -69,6 +69,8 @@ def run(v, O):
     for k in set(wa) | set(wb):
         tot = tot + (wa.get(k, 0) + wb.get(k, 0)) * species_data(k, v.natural)[1]
     out.append(('a+b sum Z', O.close(ds.Z, tot)))
+    out.append(('a+b: number fractions of the sum add up to 100', O.eq(ds.x, 100, 1e-9)))
+    out.append(('a+b: mass fractions of the sum add up to 100', O.eq(ds.X, 100, 1e-9)))
     return out
 '''
 DICT_SRC = '''
@@ -197,7 +199,7 @@ def scenarios(tier, seed):
         names = []
         sp = rnd.sample(pools[False], 3)
         t1 = build(st1, names, [sp[0], sp[1]], [j], 'all')
-        t2 = build(st2, names, [sp[1], sp[2]], [j], 'all')
+        t2 = build(st2, names, [sp[1], sp[2]] if j % 3 else [sp[2], sp[1]], [j], 'all')     # build() pops from the end: b lists sp[2] first, so the last species a + b adds already exists in a
         inp = {n: 'count' for n in names}
         inp['k'] = 'count'
         S.append(Scenario(f'arith/{j}', ARITH_SRC, inp, consts={'tree': t1, 'tree2': t2, 'natural': False}, preamble=PRE,
